@@ -13,10 +13,11 @@ TECHNIQUE = ('explicit-state search over API call histories on real Problems (fr
              'invariants: byte-identical model vectors across read-only calls, differential oracle '
              'against the history with the read-only calls removed (hidden-state leaks), and two '
              'independent builds for determinism')
-RULE = ('6 base models (feed-forward, NLBGS+Aitken cycle, Newton+bounds line search, Broyden, '
-        'approx_totals group, partial-coloring component) x all histories of length <= 3 (quick, third '
+RULE = ('8 base models (feed-forward, NLBGS+Aitken cycle, Newton+bounds line search, Broyden, '
+        'approx_totals group, partial-coloring component, chain and Newton cycle of array ExecComps '
+        'with force_alloc_complex) x all histories of length <= 3 (quick, third '
         'operation from a reduced alphabet) / <= 4 (thorough, reduced from the third) over {run_model, '
-        'set_val x2, run_driver, compute_totals, jacvec fwd, jacvec rev, check_partials fd, '
+        'set_val x2, set_val of an output, run_driver, compute_totals, jacvec fwd, jacvec rev, check_partials fd, '
         'check_partials cs, check_totals, list_inputs, list_outputs, list_vars, total coloring}; '
         'non-trivial = history contains a read-only call followed by another call; a trace = one '
         'history on which every invariant held at every step')
@@ -32,16 +33,51 @@ ASSUMPTIONS = ['run_driver (default Driver), run_model and set_val are the mutat
                'other operation in the alphabet is read-only per the property statement']
 MIN_NONTRIVIAL = {'quick': 3000, 'thorough': 12000}
 
-MUT = ('run_model', 'set_a', 'set_b', 'run_driver')
+MUT = ('run_model', 'set_a', 'set_b', 'run_driver', 'set_out')
 RO = ('totals', 'jv_fwd', 'jv_rev', 'cp_fd', 'cp_cs', 'check_totals', 'list_inputs', 'list_outputs',
       'list_vars', 'coloring')
 OPS = MUT + RO
-REDUCED = ('run_model', 'set_b', 'totals', 'jv_rev', 'cp_fd', 'check_totals', 'coloring')
+REDUCED = ('run_model', 'set_b', 'set_out', 'totals', 'jv_rev', 'cp_fd', 'check_totals', 'coloring')
 
-MODELS = ['ff', 'nlbgs_aitken', 'newton_ls', 'broyden', 'approx', 'colorcomp']
+MODELS = ['ff', 'nlbgs_aitken', 'newton_ls', 'broyden', 'approx', 'colorcomp', 'execcomp', 'execnewton']
+
+
+def _exec_problem(pal, cyc):
+    """ExecComp model (expressions evaluated by complex step inside the vectors' own complex arrays
+    when force_alloc_complex is set): a Newton-solved cycle of array-valued ExecComps + a tail"""
+    import openmdao.api as om
+    p = om.Problem(reports=None)
+    m = p.model
+    m.add_subsystem('ivc', om.IndepVarComp('p', np.array([[0.5, -1.25, 2.0], [-0.625, 0.25, 1.5],
+                                                          [1.0, 0.75, -0.5]][pal])))
+    G = m.add_subsystem('G', om.Group())
+    one = np.ones(3)
+    G.add_subsystem('c1', om.ExecComp('y = 0.5*x0 + 0.125*x1*x1 + 1.0', x0=one, x1=one, y=one))
+    G.add_subsystem('c2', om.ExecComp(['y = 0.25*sin(x0) + 0.5', 'w = x0[::-1]*x0[0]'],
+                                      x0=one, y=one, w=one))
+    G.connect('c1.y', 'c2.x0')
+    if cyc:
+        G.connect('c2.y', 'c1.x1')
+    m.connect('ivc.p', 'G.c1.x0')
+    m.add_subsystem('c3', om.ExecComp('y = x0*x0 + 2.0*x1', x0=one, x1=one, y=one))
+    m.connect('G.c2.y', 'c3.x0')
+    m.connect('G.c2.w', 'c3.x1')
+    if cyc:
+        G.nonlinear_solver = om.NewtonSolver(solve_subsystems=False, atol=1e-13, rtol=1e-13,
+                                             maxiter=30, iprint=-1, err_on_non_converge=True)
+        G.linear_solver = om.DirectSolver()
+    m.add_design_var('ivc.p')
+    m.add_constraint('c3.y')
+    m.add_constraint('G.c1.y')
+    p.driver.declare_coloring(show_summary=False, show_sparsity=False)
+    p.setup(force_alloc_complex=True)
+    return p
 
 
 def _spec(mname, pal):
+    if mname in ('execcomp', 'execnewton'):
+        return {'custom': mname, 'palette': pal, 'dvs': [{'name': 'ivc.p'}],
+                'responses': [{'name': 'c3.y'}, {'name': 'G.c1.y'}]}
     if mname == 'ff':
         cfg = {'topo': 'chain', 'kinds': 'allquad', 'wiring': 'conn_list', 'units': 'm_cm'}
     elif mname == 'nlbgs_aitken':
@@ -95,8 +131,11 @@ def _build(spec, mname):
         prob.driver.declare_coloring(show_summary=False, show_sparsity=False)
     with contextlib.redirect_stdout(buf), contextlib.redirect_stderr(buf):
         np.random.seed(3)
-        prob, info = ir.build(spec, mode='rev' if mname in ('nlbgs_aitken', 'broyden') else None,
-                              before_setup=before)
+        if spec.get('custom'):
+            prob = _exec_problem(spec['palette'], spec['custom'] == 'execnewton')
+        else:
+            prob, info = ir.build(spec, mode='rev' if mname in ('nlbgs_aitken', 'broyden') else None,
+                                  before_setup=before)
         prob.run_model()
     return prob
 
@@ -143,10 +182,21 @@ def _apply(prob, spec, op):
             k = 1.0 if op == 'set_a' else -0.5
             base = np.arange(v0.size).reshape(v0.shape)
             prob.set_val(ref_p['name'], 0.25 * k * base + 0.5 * k)
+        elif op == 'set_out':
+            # an output set by hand (initial guess / inconsistent state): queries linearize about
+            # the current state and must leave it alone
+            name = spec['responses'][-1]['name']
+            v0 = np.asarray(prob.get_val(name))
+            prob.set_val(name, 0.375 + 0.125 * np.arange(v0.size).reshape(v0.shape))
         elif op == 'run_driver':
             prob.run_driver()
         elif op == 'totals':
             return prob.compute_totals(of=of, wrt=wrt, return_format='flat_dict')
+        elif op in ('jv_fwd', 'jv_rev') and spec.get('custom'):
+            names, mode = (wrt, 'fwd') if op == 'jv_fwd' else (of, 'rev')
+            seed = {n: 0.5 + np.arange(np.size(prob.get_val(n))).reshape(np.shape(prob.get_val(n)))
+                    for n in names}
+            return prob.compute_jacvec_product(of, wrt, mode, seed, linearize=True)
         elif op in ('jv_fwd', 'jv_rev'):
             tab = ir.var_table(spec)
             if op == 'jv_fwd':
